@@ -49,7 +49,8 @@ def run(res, tier, broken):
     res.add_cov(t1_functions=n, t1_broken=len(tb))
     for b in tb:
         broken.append({"kind": "T1-skeleton", **b})
-    vs.campaign(res, broken, tier, "C04", "sc_sync", ["sc_sync.c"], scenario_params, validate)
+    vs.campaign(res, broken, tier, "C04", "sc_sync", ["sc_sync.c"], scenario_params, validate,
+                reject_is_failure=vs.protocol_reject_is_failure)
 
 
 def replay(res, path):
